@@ -73,7 +73,7 @@ func genCase(t *rapid.T) Case {
 	c.Nodes = make([]Node, n)
 
 	// skeleton first: kinds, generations, filters, indirection flags
-	needFlate := false
+	needFlate, needCrypt, cryptInd := false, false, false
 	for i := range c.Nodes {
 		nd := &c.Nodes[i]
 		nd.Num = uint32(firstNodeNum + i)
@@ -100,6 +100,18 @@ func genCase(t *rapid.T) Case {
 				nd.Filters = append(nd.Filters, tag)
 			}
 			nd.Data = gen.Hex(wprog.Body(2500, rl).Draw(t, "data"))
+			if c.Writer == "lib" && sv >= pdf.V1_5 && (c.Src.UserPW != "" || c.Src.OwnerPW != "") {
+				// explicit /Crypt filter with the Identity crypt filter:
+				// the stream is stored as plaintext in the encrypted file
+				switch rapid.IntRange(0, 3).Draw(t, "crypt") {
+				case 0:
+					nd.CryptIdentity = true
+					needCrypt = true
+				case 1:
+					nd.CryptIdentity, nd.CryptInd = true, true
+					needCrypt, cryptInd = true, true
+				}
+			}
 			if c.Writer == "serial" {
 				nd.LenInd = rapid.Bool().Draw(t, "lenind")
 				nd.FilterArr = rapid.Bool().Draw(t, "filterarr")
@@ -117,6 +129,10 @@ func genCase(t *rapid.T) Case {
 	// outside the domain
 	if needFlate && wprog.Versions[c.Tgt.Version] < pdf.V1_2 {
 		c.Tgt.Version = 2 + c.Tgt.Version%7
+	}
+	// likewise a stream with a /Crypt filter and a target before PDF 1.5
+	if needCrypt && wprog.Versions[c.Tgt.Version] < pdf.V1_5 {
+		c.Tgt.Version = 5 + c.Tgt.Version%4
 	}
 
 	// the pool of reference numbers: nodes (each twice), auxiliary objects
@@ -142,6 +158,9 @@ func genCase(t *rapid.T) Case {
 			sort.Slice(nums, func(a, b int) bool { return nums[a] < nums[b] })
 			pool = append(pool, nums...)
 		}
+	}
+	if cryptInd {
+		pool = append(pool, cryptNameNum) // the object holding the name /Crypt may be shared with ordinary references
 	}
 	pool = append(pool, danglingNums...)
 	pool = append(pool, genMismatchBase+uint32(rapid.IntRange(0, n-1).Draw(t, "mismatch")))
@@ -277,7 +296,7 @@ func genCase(t *rapid.T) Case {
 // through them without consulting the redirection) and auxiliary objects
 // standing in /Filter or /DecodeParms (made direct from the source).
 func redirectable(c *Case, ref pdf.Reference) bool {
-	if ref.Number() >= auxBase && ref.Number() < auxBase+10*12 {
+	if ref.Number() >= auxBase && ref.Number() < auxBase+10*12 || ref.Number() == cryptNameNum {
 		return false
 	}
 	for i := range c.Nodes {
